@@ -1,7 +1,8 @@
 """C41 -- Connect session principal fields are extracted exactly or rejected.
 
-1. TLC proves, on every sequence of <= 2 abstract protobuf fields over 133 field kinds
-   (7 field numbers x all wire types x boundary values, plus 6 kinds of cut field), that
+1. TLC proves, on every sequence of <= 2 abstract protobuf fields over 96 field kinds
+   (5 field numbers x all wire types x boundary values, plus 6 kinds of cut field; 186 kinds
+   over 10 numbers in thorough), that
    the declarative statement ExtractD equals the parser-style fold ExtractS and that
    "rejected" coincides with the listed conditions; a second config does sequences of
    <= 3 fields over fewer numbers, a broken fold must violate (non-vacuity).
@@ -19,7 +20,7 @@ META = {
     "category": "model_checking",
     "text": "Principal.tla states the extraction rule declaratively over abstract protobuf field sequences "
             "(last value wins; the five listed conditions reject) and as a parser-style fold; TLC proves the two "
-            "equal on all sequences of up to 2 fields over 133 field kinds (and up to 3 over a smaller universe). "
+            "equal on all sequences of up to 2 fields over 96 field kinds (186 in thorough; up to 3 fields over a smaller universe). "
             "All those sequences plus simulated longer ones are encoded with protowire and given to the real "
             "ExtractSessionPrincipalWire, as are seeded random sequences with byte-level truncations, flips, "
             "insertions and non-minimal varints; TLC parses every recorded byte string with its own wire-level "
@@ -51,7 +52,7 @@ def sig(rec):
 
 
 def run(ctx):
-    r = ctx.tlc("Principal", workers=1)
+    r = ctx.tlc("Principal", ctx.pick("Principal.cfg", "Principal_full.cfg"), workers=1)
     vecs = r.printed_json("VEC")
     n_ex = len(vecs)
     ctx.log("Principal.tla: %d field sequences (<=2 fields), ExtractD == ExtractS, rejected <=> listed" % r.distinct)
@@ -69,9 +70,10 @@ def run(ctx):
     with open(ctx.path("vectors.json"), "w") as fh:
         json.dump(vecs, fh)
 
-    ctx.harness("./c41", "TestTrace", env={"VERIF_RANDOM": ctx.pick(3000, 30000),
-                                           "VERIF_UNMARSHAL_EVERY": ctx.pick(4, 1)}, timeout=1200)
+    ctx.harness("./c41", "TestTrace", env={"VERIF_RANDOM": ctx.pick(2000, 30000),
+                                           "VERIF_UNMARSHAL_EVERY": ctx.pick(5, 1)}, timeout=1200)
     st = json.load(open(ctx.path("stats.json")))
+    ctx.log("harness: %d records %s" % (st["records"], st["outcomes"]))
     recs = vlib.read_ndjson(ctx.path("trace.ndjson"))
     total = len(recs)
     path = ctx.path("trace.ndjson")
@@ -106,7 +108,7 @@ def run(ctx):
         "evaluations": total,
         "records_judged": judged,
         "distinct_nontrivial": n_ex + len(longv) + st["mutated"],
-        "rule": "TLC-exported distinct field sequences (all <=2-field sequences over 133 kinds, simulated 3..6-field "
+        "rule": "TLC-exported distinct field sequences (all <=2-field sequences over the field kinds, simulated 3..6-field "
                 "ones) plus byte-level mutated random sequences; every one carries at least one field",
         "exhaustive_vectors": n_ex,
         "simulated_vectors": len(longv),
